@@ -11,6 +11,7 @@ import Driver.Codec
 import Driver.Reasm
 import Driver.Handles
 import Driver.Settle
+import Driver.Conn
 
 structure DState where
   sess : Amqp.Session.St := Amqp.Session.init 0 0 0
@@ -21,6 +22,7 @@ structure DState where
   links : Amqp.Handles.Links := Amqp.Handles.Links.empty
   settle : Amqp.Settle.St := Amqp.Settle.init []
   rsettle : Amqp.Settle.RSt := Amqp.Settle.rinit false
+  conn : Driver.Conn.DSt := Driver.Conn.init
 
 def handle (st : DState) (line : String) : DState × String :=
   match Driver.words line with
@@ -56,6 +58,10 @@ def handle (st : DState) (line : String) : DState × String :=
   | "Y" :: ws =>
     match Driver.Settle.rstepLine st.rsettle ws with
     | some (s, out) => ({ st with rsettle := s }, out)
+    | none => (st, "bad-op")
+  | "C" :: ws =>
+    match Driver.Conn.step st.conn ws with
+    | some (s, out) => ({ st with conn := s }, out)
     | none => (st, "bad-op")
   | "W" :: ws => (st, (Driver.Credit.wait ws).getD "bad-op")
   | _ => (st, "bad-op")
